@@ -346,10 +346,10 @@ def test_wp_result():
 
 # ---- 7. product structure ----------------------------------------------------------------------------------------
 def test_product():
-    check("paths", M.PATHS, ["lit", "pyformat", "qmark", "insert_select", "ctas", "clone", "wp", "wp_dbschema", "wp_subset", "wp_auto"])
+    check("paths", M.PATHS, ["lit", "pyformat", "qmark", "insert_select", "ctas", "clone", "wp", "wp_dbschema", "wp_subset", "wp_auto", "wp_opts"])
     A = M.allowed
     check("-0.0 not as SQL text", [A(T("FLOAT"), p, "neg_zero", -0.0) for p in M.PATHS],
-          [False, False, False, True, True, True, True, True, True, True])
+          [False, False, False, True, True, True, True, True, True, True, True])
     check("year 1 not via pyformat", A(T("DATE"), "pyformat", "year1", dt.date(1, 1, 1)), False)
     check("year 1 via literal", A(T("DATE"), "lit", "year1", dt.date(1, 1, 1)), True)
     check("tz not via qmark", M.type_applies(T("TIMESTAMP_TZ"), "qmark"), False)
@@ -389,6 +389,20 @@ def test_product():
     check("falsy JSON scalars are in the alphabet", {"json_false", "json_int", "json_empty_str", "json_null"} <= {k for k, _ in M.values_for(T("VARIANT"))}, True)
     check("no identity pairing of dict cells in one DataFrame column", [c for c in M.cells(T("VARIANT"), "wp", "thorough") if c["null"] == "after_identity"], [])
     check("identity pairing of JSON through SQL", [[v for _, v in c["rows"]] for c in M.cells(T("ARRAY"), "lit", "thorough") if c["null"] == "after_identity"], [["[]", '[1,[2,{"a":null}]]']])
+    # write_pandas options
+    oc = M.opts_cells(T("NUMBER"))
+    check("option product", len(oc), 6 * 5 * 2 * 2)
+    check("option product is complete", len({c["shape"] for c in oc}), 120)
+    check("chunk sizes for n=5", [c for _, c in M.WP_CHUNKS], [None, 1, 2, 4, 5, 6])
+    check("every option DataFrame: 5 rows, NULL in the middle, 4 values", {(len(c["rows"]), c["rows"][2][1]) for c in oc}, {(5, None)})
+    check("option values NUMBER", [v for _, v in oc[0]["rows"]], [0, 1, None, -1, 2**31])
+    check("option values INT stay within 64 bit", all(v is None or abs(v) < 2**63 for c in M.opts_cells(T("INT")) for _, v in c["rows"]), True)
+    check("option values CHAR fit", all(v is None or len(v) <= 1 for _, v in M.opts_cells(T("CHAR"))[0]["rows"]), True)
+    check("option values VARIANT: one document repeated", [v for _, v in M.opts_cells(T("VARIANT"))[0]["rows"]], ['{"a":{"b":[1,"x"]}}'] * 2 + [None] + ['{"a":{"b":[1,"x"]}}'] * 2)
+    check("option values TIMESTAMP_NTZ fit datetime64[ns]", all(v is None or M.NS_MIN <= v <= M.NS_MAX for _, v in M.opts_cells(T("TIMESTAMP_NTZ"))[0]["rows"]), True)
+    check("index labels", [M.df_index(k, 5) for k in M.WP_INDEXES],
+          [None, [100, 101, 102, 103, 104], [4, 3, 2, 1, 0], ["r0", "r1", "r2", "r3", "r4"], [0, 0, 1, 1, 2]])
+    check("one quick type per synonym group", sorted(M.tgroup(T(n)) for n in M.WP_OPTS_QUICK_TYPES), sorted({M.tgroup(t) for t in M.TYPES}))
     check("quick subset of thorough", all({(c["shape"], c["null"]) for c in M.cells(t, p, "quick")} <= {(c["shape"], c["null"]) for c in M.cells(t, p, "thorough")}
                                         for t in M.TYPES for p in M.PATHS if M.type_applies(t, p)), True)
     check("vclass", [M.vclass(T("INT"), "one", 1), M.vclass(T("INT"), "over_int64", 2**63), M.vclass(T("INT"), "int64_min", -(2**63)),
